@@ -280,6 +280,29 @@ pub fn ends_with(s: &str, p: &str) -> bool {
     true
 }
 
+pub fn contains(s: &str, p: &str) -> bool {
+    let (b, q) = (s.as_bytes(), p.as_bytes());
+    if q.len() > b.len() {
+        return false;
+    }
+    let mut off = 0;
+    while off + q.len() <= b.len() {
+        let mut i = 0;
+        let mut ok = true;
+        while i < q.len() {
+            if b[off + i] != q[i] {
+                ok = false;
+            }
+            i += 1;
+        }
+        if ok {
+            return true;
+        }
+        off += 1;
+    }
+    false
+}
+
 pub fn nth_char(s: &str, n: usize) -> Option<char> {
     let b = s.as_bytes();
     if n < b.len() {
